@@ -23,6 +23,7 @@
 # This file contains types and functions which help build ANSI escape code strings
 
 import re
+import sys
 import math
 from typing import Any, Union, List, Dict, Tuple
 from .ansi_param import AnsiParam, AnsiParamEffect, EFFECT_CLEAR_DICT
@@ -671,6 +672,14 @@ class AnsiString:
         ''' Returns repr of a string with ANSI-formatting applied '''
         return self.__format__(None).__repr__()
 
+    @staticmethod
+    def _format_width(num:str) -> int:
+        ''' The width given in a format spec. Like str.__format__, a width which cannot be a size is a ValueError. '''
+        width = int(num)
+        if width > sys.maxsize:
+            raise ValueError('Too many decimal digits in format string')
+        return width
+
     def _apply_string_format(self, string_format:str, settings:Union[AnsiFormat, AnsiSetting, str, int, list, tuple]):
         '''
         Applies string formatting, given from the format spec (justification settings)
@@ -689,7 +698,7 @@ class AnsiString:
                 self.apply_formatting(settings)
             if num:
                 self.ljust(
-                    int(num),
+                    __class__._format_width(num),
                     match.group(1) or ' ',
                     inplace=True,
                     extend_formatting=extend_formatting)
@@ -706,7 +715,7 @@ class AnsiString:
                 self.apply_formatting(settings)
             if num:
                 self.rjust(
-                    int(num),
+                    __class__._format_width(num),
                     match.group(1) or ' ',
                     inplace=True,
                     extend_formatting=extend_formatting)
@@ -723,7 +732,7 @@ class AnsiString:
                 self.apply_formatting(settings)
             if num:
                 self.center(
-                    int(num),
+                    __class__._format_width(num),
                     match.group(1) or ' ',
                     inplace=True,
                     extend_formatting=extend_formatting)
